@@ -85,6 +85,112 @@ def bit_test(t, truth):
     return None
 
 
+def slot_access_rule(facts, rep, R1, wr, ww):
+    """Every element access `view.get(i)` / `view[i]` of the writer into a set: the set index it denotes
+    (sub-slice offsets added) must be 32*group + bit + 1, and a constant cap on the viewed range must not cut off
+    slot 256."""
+    loops = range_loops(wr)
+    bound_of_bb = {}
+    for lp, lo, hi, tk in loops:
+        if lp.get("next_bb") is not None and lo == 0 and hi is not None:
+            bound_of_bb[lp["next_bb"]] = hi
+        elif lp.get("next_bb") is not None and hi is None and tk is not None and any(
+                x[0] == "call" and x[1].endswith("Iterator::enumerate") for x in walk(lp["src"])):
+            bound_of_bb[lp["next_bb"]] = tk        # `.enumerate().take(k)`: the index runs over 0..k
+
+    def mark(t):
+        """loop items as ('const', 'loop@bb', ..) markers, so that they survive term normalisation"""
+        if not isinstance(t, tuple) or not t:
+            return t
+        if t[0] == "call" and t[1].endswith("::next") and len(t) > 3 and t[3] in bound_of_bb:
+            return ("param", 1000 + t[3], "loop")
+        return tuple(mark(x) if isinstance(x, tuple) else x for x in t)
+
+    def atom_bound(a):
+        for x in walk(a):
+            if x[0] == "param" and isinstance(x[1], int) and x[1] >= 1000 and (x[1] - 1000) in bound_of_bb:
+                return bound_of_bb[x[1] - 1000]
+        return None
+
+    def peel(base):
+        """(offset affine, cap) of a view into the set vector; cap = smallest constant bound on the exclusive end"""
+        off = ({}, 0)
+        cap = None
+        for _ in range(6):
+            base = strip_refs(base)
+            while base[0] == "deref":
+                base = strip_refs(base[1])
+            if base[0] == "call" and "ops::Index" in base[1] and len(base[2]) == 2 and strip_refs(base[2][1])[0] == "agg":
+                rg = strip_refs(base[2][1])
+                kind = (rg[2] or "").rsplit("::", 1)[-1]
+                st = en = None
+                if kind == "Range" and len(rg[4]) == 2:
+                    st, en = rg[4]
+                elif kind == "RangeFrom":
+                    st = rg[4][0]
+                elif kind == "RangeTo":
+                    en = rg[4][0]
+                elif kind != "RangeFull":
+                    return None
+                if st is not None:
+                    a = affine(st, None)
+                    if a is None:
+                        return None
+                    off = ({k: off[0].get(k, 0) + a[0].get(k, 0) for k in set(off[0]) | set(a[0])}, off[1] + a[1])
+                if en is not None:
+                    ks = [x[1] for x in walk(en) if x[0] == "const" and isinstance(x[1], int) and not isinstance(x[1], bool) and x[1] > 8]
+                    e_ = strip_refs(en)
+                    if e_[0] == "const":
+                        ks = [e_[1]]
+                    elif not (e_[0] == "call" and e_[1].rsplit("::", 1)[-1] == "min"):
+                        ks = ks if (e_[0] == "call" and e_[1].rsplit("::", 1)[-1] == "min") else []
+                    for k_ in ks:
+                        # the cap is expressed in the coordinates of the view being sliced
+                        capk = k_ + 0
+                        cap = capk if cap is None else min(cap, capk)
+                base = base[2][0]
+                continue
+            if base[0] == "call" and base[1].rsplit("::", 1)[-1] in ("deref", "as_slice", "as_ref", "borrow", "iter") and base[2]:
+                base = base[2][0]
+                continue
+            break
+        return off, cap, base
+    found = []
+    for bb, t in wr.calls():
+        nm = callee_names(t)[1] or ""
+        is_get = nm.endswith("<impl [T]>::get") and len(t["args"]) == 2
+        is_idx = "ops::Index" in nm and nm.endswith("::index") and len(t["args"]) == 2
+        if not (is_get or is_idx):
+            continue
+        idx_t = wr.term_of_operand(t["args"][1])
+        if strip_refs(idx_t)[0] == "agg":
+            continue
+        a = affine(mark(idx_t), None)
+        if a is None or not a[0]:
+            continue
+        bounds = sorted((atom_bound(k), v) for k, v in a[0].items())
+        if any(b_ is None for b_, v in bounds):
+            continue
+        pl = peel(wr.term_of_operand(t["args"][0]))
+        if pl is None:
+            continue
+        off, cap, root = pl
+        if off[0]:
+            continue
+        found.append((bounds, a[1] + off[1], cap, t["line"]))
+    for bounds, const, cap, line in found:
+        if sorted(bounds) != [(8, 32), (32, 1)]:
+            continue     # not a slot access (some other indexed collection)
+        where = "%s:%s" % (wr.file, line)
+        if const != 1:
+            rep.violation(R1, wr.name, "slot-index:%d" % const, "the writer looks at set index 32*group + bit + %d (specified + 1: index 0 holds the label)" % const, where)
+        elif cap is not None and cap < 257:
+            rep.violation(R1, wr.name, "slot-cap:%d" % cap, "the writer views the set through a range capped at index %d: slot %d .. 256 (group 7, bit 31) are never serialised" % (cap, cap), where)
+        else:
+            rep.ok(R1, {"slot_access": "set[32*group + bit + 1]", "line": line})
+    return len([f for f in found if sorted(f[0]) == [(8, 32), (32, 1)]])
+
+
 def run(facts, rep, ctx):
     R1 = rep.rule("R17.1", "dual structure: label constant, loop bounds, bit test/set, slot index map, one slot per bit, group/main-bit coupling, string/bit coupling", floor=11)
     R2 = rep.rule("R17.2", "space accounting: 4 bytes per emitted word per set; 12-byte header; 4 bytes per clip-table entry", floor=3)
@@ -171,6 +277,8 @@ def run(facts, rep, ctx):
             if atom[1] in loop_item_local(nv, lp):
                 return hi if hi is not None else tk
         return None
+    # slot accesses of the writer on the fully expanded terms (independent of how locals are named)
+    n_slots = slot_access_rule(facts, rep, R1, wr, ww)
     if len(good_forms) == 2 and not bad_forms:
         okb = all(loop_bound_of(wnv, f[1], wloops) == 8 and loop_bound_of(wnv, f[2], wloops) == 32 for f in good_forms)
         if okb:
@@ -178,6 +286,8 @@ def run(facts, rep, ctx):
             rep.ok(R1, {"slot_index": "32*group + bit + 1 (emission)"})
         else:
             rep.violation(R1, wr.name, "index-loops", "slot index uses loop counters with bounds other than (8, 32)", ww)
+    elif not bad_forms and n_slots >= 2:
+        pass        # decided by the slot-access rule above
     elif not bad_forms:
         rep.inconc(R1, "writer slot index: %d expression(s) of the form 32*group + bit + 1 recognised (2 expected)" % len(good_forms))
     else:
@@ -189,6 +299,43 @@ def run(facts, rep, ctx):
     except PathLimit:
         rep.inconc(R1, "reader: too many paths")
         return
+    # every trip round the set loop stores one set: a path back to the loop head that pushed nothing drops a set
+    def head_cond(h):
+        x_ = h
+        for _ in range(8):
+            tt_ = rd.blocks[x_]["term"]
+            if tt_["k"] == "switch":
+                return rd.term_of_operand(tt_["d"])
+            nx_ = [y for y in rd.succs(x_)]
+            if len(nx_) != 1 and tt_["k"] != "call":
+                return None
+            x_ = tt_.get("t") if tt_["k"] in ("call", "goto", "drop", "assert") else None
+            if x_ is None:
+                return None
+        return None
+    heads = [h for h in rd.loops() if head_cond(h) is not None and any(
+        x[0] == "call" and x[1].rsplit("::", 1)[-1] in ("tell", "position") for x in walk(head_cond(h)))]
+    if len(heads) == 1:
+        h = heads[0]
+        trips = [p for p in rpaths if p.end == "loop" and getattr(p, "loop_to", None) == h and h in p.blocks]
+        dropped = None
+        for p in trips:
+            pos = p.blocks.index(h)
+            later = set(p.blocks[pos:])
+            stored = False
+            for e in p.events:
+                if e["k"] == "call" and e["callee"] and e["bb"] in later and e["callee"].rsplit("::", 1)[-1] in ("push", "extend", "insert", "push_back") and e["args"]:
+                    a0 = e["args"][0]
+                    if any(x[0] == "field" and x[2] == "sets" for x in walk(a0)) or any(
+                            x[0] in ("var", "local") and (rd.local_ty(x[1]) or "").startswith("std::vec::Vec<std::vec::Vec<") for x in walk(a0)):
+                        stored = True
+            if not stored:
+                conds = [c for c in p.conds if c[0] in later]
+                dropped = "; ".join(fmt(c[1])[:50] for c in conds[-2:])
+        if dropped is not None:
+            rep.violation(R1, rd.name, "set-dropped", "the set loop can go round without storing a set (under [%s]): that set is missing from the re-read value" % dropped, rw)
+        elif trips:
+            rep.ok(R1, {"set_loop": "every trip stores one set", "paths": len(trips)})
     per_bit = {}
     resize_absent = []
     bit_tests = set()
